@@ -148,6 +148,16 @@ CHECKS = {
   note="Partial. Trusted: Coq kernel, vm_compute, hand model + differential, regex translator. Fixed-form statement gathering is differential only.",
   technique="Rocq proof (characterisation of the form detector, printer recognised / free never fixed for all programs, labelled-DO stack) over a hand model validated differentially + paired fixed/free rendering differential",
   design="4/C14"),
+ "C09": dict(
+  text="Coq theorems (C09/Props.v): for every line and word the word search returns a span of the line that spells the word; every match of every "
+       "compiled pattern lies in the line searched; the continuation-line search reports a gathered line and a span inside it; locations built by "
+       "_create_ref_link and Diagnostic.build lie in the document for every object, hit or miss, given that gathered lines are views of document "
+       "lines (checked on the implementation on every run); range_json keeps order; a refutation witness for its falsy-zero rule (unreachable at the "
+       "pinned call sites). Totality of the nine positional handlers and validity of every range in results and diagnostics are established by a "
+       "sweep: hostile texts at all positions, generated programs, mutants and the sample sources at sampled positions inside and outside the text.",
+  note="Partial. Trusted: Coq kernel, vm_compute, regex translator, sweep harness. Handler totality is sweep-level, not a theorem.",
+  technique="Rocq proof (word search / continuation search / link and diagnostic ranges valid for all documents) over a hand model validated differentially + exhaustive-position request sweep with range validation",
+  design="4/C09"),
 }
 NOT_YET = "not yet built in this round; see DESIGN.md section 8 (build order)"
 
